@@ -86,6 +86,26 @@ def run (j : Json) : Except String Json := do
                    ("baseChain", .bool (← chainedOfJson j))]
     let tru := deserializeTrusted Mp O opts cls d
     out := out ++ [("trusted", resToJson tru)]
+    if !mapperFree then
+      -- the regular path with per-class simple mappers, as `deserializeMapped` describes it (Props/C10
+      -- trusted_mapper_equiv_partial); `simpleMappers`: no class of the tree has an unsupported mapper
+      let simple ← match optField j "mappers" with
+        | some x => do
+          let bs ← (← x.getArr?).toList.mapM fun kv => do
+            let p ← kv.getArr?
+            pure (!(← mapperOfJson p[1]!).isComplex)
+          pure (bs.all id)
+        | none => pure true
+      let regM := deserializeMapped Mp O opts cls d
+      out := out ++ [("simpleMappers", .bool simple), ("plainMapped", .bool (plainDoc opts cls (untrV Mp cls d))),
+                     ("regularMapped", resToJson regM)]
+      match regM, tru with
+      | .ok x, .ok y => out := out ++ [("eqvMapped", .bool (eqv x y)),
+                                       ("serSameMapped", .bool (match serialize O cls x, serialize O cls y with
+                                          | .ok a, .ok b => PyVal.pyEq a b
+                                          | .error _, .error _ => true
+                                          | _, _ => false))]
+      | _, _ => pure ()
     if mapperFree then
       let reg := deserialize O opts cls d
       out := out ++ [("regular", resToJson reg)]
@@ -120,8 +140,10 @@ def run (j : Json) : Except String Json := do
     out := out ++ [("created", .bool created), ("fsafe", .bool (fsafeCls nonFast cls)),
                    ("fplain", .bool (fplainInst cls x)), ("fwf", .bool (fwf O cls x)),
                    ("fastDefects", strs (fastDefects Mp nonFast compact sn cls x))]
+    let firstUse ← optBool j "firstUse" false   -- the instance is the FIRST one of a fresh class, built by a trusted path
     if created then
-      out := out ++ [("fast", resToJson (fastSerialize Mp nonFast jsonEnums sn compact cls x))]
+      out := out ++ [("fast", resToJson (if firstUse then fastSerializeFirst Mp nonFast jsonEnums false cls x
+                                         else fastSerialize Mp nonFast jsonEnums sn compact cls x))]
     if mapperFree then
       out := out ++ [("regular", resToJson (serializeCompact O compact cls x))]
   else if mode == "oracle" then
